@@ -81,7 +81,7 @@ func init() {
 	core.Register(&core.Prop{
 		ID:    "C03",
 		Level: "fault_enumeration",
-		Rule: "histories of length 1-4 (5 hand-written + seeded random ones over a 4-version chart family with hooks; prefix ops may carry one scripted failure) on memory/secrets(/configmaps) storage; the last op (install|upgrade|rollback) is run for every combination of atomic x cleanup-on-fail x no-hooks (x replace for install; rollback: cleanup x no-hooks) and, per combination, once per single fault: every cluster request of its fault-free trace answered 500 once, every wait call failing, every hook readiness failing. " +
+		Rule: "histories of length 1-4 (6 hand-written + seeded random ones over a 4-version chart family with hooks; prefix ops may carry one scripted failure) on memory/secrets(/configmaps) storage; the last op (install|upgrade|rollback) is run for every combination of atomic x cleanup-on-fail x no-hooks (x replace for install; rollback: cleanup x no-hooks) and, per combination, once per single fault: every cluster request of its fault-free trace answered 500 once, every wait call failing, every hook readiness failing. " +
 			"distinct_nontrivial counts distinct (driver, op+flags, fault category, outcome, ledger shape after) tuples among executions in which the fault fired and the op failed.",
 		Assumptions: []string{
 			"the simulated API server (sim) applies requests like a real API server (CRUD, strategic/merge patch, 404/409)",
